@@ -15,6 +15,9 @@ def run(chk, tier):
     for name, std in plan:
         lib = lib_for(name, std)
         spec_array.check_static(chk, lib)
+    # iterator-pair overloads are documented for input iterators: a single-pass range is traversed once
+    import singlepass
+    singlepass.check(chk, lib_for("vprims_le", "c++17"))
     chk.floor("ARR.static rows", chk.rule_counts.get("ARR.static", 0), 60)
     chk.assumptions.append("std::copy_n / fill / fill_n / memchr / find_if behave as their summaries (trusted)")
     return chk.finish(
